@@ -67,6 +67,8 @@ func init() {
 				NoValidate: true, Tolerant: true, ReplayFn: replayC10, MustReach: []string{"simplified"}},
 			{Name: "gsxC10BoolSimplifyFloat", Pkg: "checkers", Quick: map[string]int{"depth": 1, "strlen": 4, "paths": 3000, "wall_s": 60}, Thorough: map[string]int{"depth": 2, "strlen": 4, "paths": 15000, "wall_s": 300},
 				NoValidate: true, Tolerant: true, ReplayFn: replayC10},
+			{Name: "gsxC10BoolSimplifyImpure", Pkg: "checkers", Quick: map[string]int{"depth": 1, "strlen": 4, "paths": 3000, "wall_s": 60}, Thorough: map[string]int{"depth": 2, "strlen": 4, "paths": 15000, "wall_s": 300},
+				NoValidate: true, Tolerant: true, ReplayFn: replayC10},
 			{Name: "gsxC10BoolSimplifyNamedFloat", Pkg: "checkers", Quick: map[string]int{"depth": 1, "strlen": 4, "paths": 3000, "wall_s": 60}, Thorough: map[string]int{"depth": 2, "strlen": 4, "paths": 15000, "wall_s": 300},
 				NoValidate: true, Tolerant: true, ReplayFn: replayC10},
 		},
